@@ -139,6 +139,9 @@ type Machine struct {
 	httpS     *httpSide
 	protoMsgs []protoMsg
 	pinned    []ModelVal
+	coros     []*coro
+	curCoro   *coro
+	timers    []*Native
 	pinnedOn  bool
 	pinPos    int
 	fs        map[string]*fsEnt
@@ -574,6 +577,8 @@ func (m *Machine) runFrame(fr *frame) {
 		r := recover()
 		switch r := r.(type) {
 		case pathEnd:
+			panic(r)
+		case coroKill:
 			panic(r)
 		case *goPanic:
 			fr.panicking = true
